@@ -101,6 +101,11 @@ def generate(rng, tier):
         if c["h"][0].startswith("L_") and c["h"][0] not in ("L_ServoV", "L_Servo") and not c.get("noport") and "badack" not in c and rng.random() < 0.08:
             kind = rng.choice(["errline", "silence", "newsyntax", "fault"])
             cases.append(dict(c, badack=(0, kind), family=c["h"][0] + "/unacknowledged/" + kind))
+    seen = set()
+    for c in list(cases):
+        k = c["h"][0]
+        if not c.get("noport") and (k not in seen or rng.random() < 0.05):
+            seen.add(k); cases.append(dict(c, debug_logging=True, family="debug-logging/" + k))
     for c in cases:
         if c.get("noport"): continue
         r = rng.random()
@@ -139,6 +144,13 @@ class AckPort:
     def reset_input_buffer(self): pass
 
 def run_impl(c):
+    if c.get("debug_logging"):
+        import common
+        with common.debug_logging():
+            return _run_impl(c)
+    return _run_impl(c)
+
+def _run_impl(c):
     h = c["h"]; k, a = h[0], h[1:]
     legacy = k.startswith("L_")
     if c.get("noport"):
@@ -151,7 +163,7 @@ def run_impl(c):
         conv = (lambda x: (bool(x) if x in (0, 1) and c["typed_twin"] == "bool" else float(x)) if isinstance(x, int) and not isinstance(x, bool) and abs(x) < 2**53 else x)
         twin = dict(c, h=(k,) + tuple(conv(x) for x in a), _twin_running=True)
         twin.pop("typed_twin")
-        try: run_impl(twin)
+        try: _run_impl(twin)
         except Exception: pass
     if legacy:
         M = ebb_motion
